@@ -53,7 +53,7 @@ LEVEL_NOTE = ("leaves are answered at specification level; for all four index ki
 TECHNIQUE = "Lean 4 structural induction over the query AST + differential correspondence on real catalogs"
 
 
-MODES = (("large", 0.10), ("wide", 0.10), ("twocat", 0.06))
+MODES = (("large", 0.10), ("wide", 0.10), ("twocat", 0.06), ("exotic", 0.05))
 
 
 def pick_mode(rng):
@@ -72,7 +72,7 @@ def gen_sized(rng, mode):
     total = rng.random() < 0.5
     kinds = [rng.choice(["field", "field", "keyword", "keyword", "facet"]) for _ in range(rng.choice([1, 2, 2, 3]))]
     if mode == "large":
-        ndocs = rng.choice([50, 64, 80, 120, 120, 200, 200, 400])
+        ndocs = rng.choice([40, 64, 80, 120, 200, 200, 300, 400])
         dist = qtree.Dist(rng, rng.choice([12, 40]), rng.choice([6, 12]), True)
     else:
         ndocs = rng.choice([8, 12, 25, 40, 60])
@@ -93,6 +93,8 @@ def gen_sized(rng, mode):
         op = rng.choice(["apply", "apply", "applyq", "applyraw", "applyops", "applyops", "applye2e"])
         if t[0] in ("and", "or") and len(t[1]) >= 3 and rng.random() < 0.2:
             op = "applyshared"
+        elif rng.random() < 0.3:
+            op = "applystable"      # twice, and no operand's own answer may change by executing the query
         cmds.append([op] + toks)
         asked.append(cmds[-1])
         if rng.random() < 0.15:
@@ -110,10 +112,35 @@ def gen_sized(rng, mode):
     return {"session": "query", "cfg": cfg, "kinds": kinds, "cmds": cmds, "mode": mode}
 
 
+def gen_exotic(rng):
+    """`xapply`: And/Or/Not over leaves whose constants the Lean model cannot express (RangeValue, floats, tuple
+    containers, late-bound Names, the legacy tuple/list forms of D13): execute(optimize=False) and _apply against
+    the independent evaluation qtree.xsem.  No effective NotAll (D2)."""
+    total = rng.random() < 0.5
+    twocat = rng.random() < 0.3
+    kinds = qtree.pair_kinds(rng) if twocat else \
+        [rng.choice(["field", "field", "keyword"]) for _ in range(rng.choice([1, 2, 2, 3]))]
+    kinds = [k if k in ("field", "keyword") else "field" for k in kinds]
+    kinds, cfg, docs, _ = qtree.gen_catalog_x(rng, total, kinds=kinds, twocat=twocat,
+                                              ndocs=rng.choice([1, 3, 5, 8, 12, 25, 60]), idrange=80)
+    cmds = list(docs)
+    for _ in range(rng.randrange(3, 8)):
+        for _ in range(20):
+            t = qtree.gen_xtree(rng, kinds, rng.choice([1, 2, 2, 3]), rng.random() < 0.1)
+            if "D2" not in qtree.xhazards(t, kinds, {}):
+                break
+        else:
+            t = qtree.gen_xleaf(rng, kinds, c="eq")
+        cmds.append(["xapply"] + qtree.flat_tokens(t))
+    return {"session": "query", "cfg": cfg, "kinds": kinds, "cmds": cmds, "mode": "exotic"}
+
+
 def gen(rng, tier, idx):
     mode = pick_mode(rng)
     if mode in ("large", "wide"):
         return gen_sized(rng, mode)
+    if mode == "exotic":
+        return gen_exotic(rng)
     total = rng.random() < 0.5
     # e2e catalogs: facet and text indexes are model-backed in the driver (hierarchical facets over a dictionary
     # of names, text leaves = query STRINGS), so that `applye2e` composes all four index models
@@ -196,8 +223,37 @@ def build_ops(im, t):
     return im.build(t)
 
 
+_PROBE = {}     # command index -> size observations of the case being evaluated (read by features)
+
+
+def probe(im, t):
+    """sizes along the evaluation of the top And/Or (after Not expansion): the largest ratio between the running
+    result and the next operand, in both orientations, and whether that small side is a subset of the big one"""
+    from hypatia import query as Q
+    try:
+        q = im.build(t)
+        if isinstance(q, Q.Not):
+            q = q.query.negate()
+        if not isinstance(q, Q.BoolOp):
+            return []
+        sets = [set(k._apply(None)) for k in q.queries]
+    except Exception:
+        return []
+    f = set()
+    run = sets[0]
+    for s in sets[1:]:
+        if len(s) and len(run):
+            if len(s) * 32 < len(run):
+                f.add("operand-32x-smaller-than-running-result" + ("" if s - run else "(subset)"))
+            if len(run) * 32 < len(s):
+                f.add("running-result-32x-smaller-than-operand" + ("" if run - s else "(subset)"))
+        run = (run & s) if isinstance(q, Q.And) else (run | s)
+    return sorted(f)
+
+
 def impl_run(hyp, case):
     from hypatia.catalog import CatalogQuery
+    _PROBE.clear()
     im = qtree.Impl(hyp, case["cfg"], case.get("kinds"))
     out = []
     for c in case["cmds"]:
@@ -208,6 +264,16 @@ def impl_run(hyp, case):
                 out.append("ok")
                 continue
             t = qtree.parse_tokens(list(c[1:]))
+            if op == "xapply":
+                names = {}
+                q = im.xbuild(t, names)
+                r1 = qtree.run_ids(lambda: q.execute(optimize=False, names=dict(names)))
+                r2 = qtree.run_ids(lambda: q._apply(dict(names)))
+                rs = idset(qtree.xsem(t, im.kinds, im.table))
+                out.append("ok" if r1 == r2 == rs else "execute=%s _apply=%s independent=%s" % (r1, r2, rs))
+                continue
+            if case.get("mode") == "large" and op.startswith("apply"):
+                _PROBE[len(out)] = probe(im, t)
             if op in ("apply", "applye2e"):
                 # applye2e: the model side evaluates the tree over the C01/C02 index *models* fed with the
                 # same doc lines (applyQM), specification side = applyQ over the tables (c04_end_to_end)
@@ -248,6 +314,17 @@ def impl_run(hyp, case):
                 else:
                     q = im.build(t)
                 out.append(qtree.run_ids(lambda: q.execute(optimize=False)))
+            elif op == "applystable":
+                from hypatia import query as Q
+                q = im.build(t)
+                top = q.query.negate() if isinstance(q, Q.Not) else q
+                kids = list(top.queries) if isinstance(top, Q.BoolOp) else []
+                before = [qtree.run_ids(lambda k=k: k._apply(None)) for k in kids]
+                r1 = qtree.run_ids(lambda: q.execute(optimize=False))
+                after = [qtree.run_ids(lambda k=k: k._apply(None)) for k in kids]
+                r2 = qtree.run_ids(lambda: q.execute(optimize=False))
+                out.append("operand-answer-changed-by-executing-the-query" if before != after else
+                           r1 if r1 == r2 else "first=%s second=%s" % (r1, r2))
             elif op == "shape":
                 out.append(" ".join(map(str, im.tokens(im.build(t)))))
             elif op == "negshape":
@@ -260,7 +337,9 @@ def impl_run(hyp, case):
 
 
 def model_cmd(c):
-    if c[0] in ("applyq", "applyraw", "applyops", "applyshared"):
+    if c[0] == "xapply":
+        return ["cfg", "xapply"]        # no model answer (the driver acknowledges with `ok`): see gen_exotic
+    if c[0] in ("applyq", "applyraw", "applyops", "applyshared", "applystable"):
         return ["apply"] + list(c[1:])
     return c
 
@@ -276,6 +355,9 @@ def has_bool(c):
 
 
 def nontrivial(case, outs):
+    if case.get("mode") == "exotic":
+        return any(c[0] == "xapply" and o == "ok" and has_bool(c) for c, o in zip(case["cmds"], outs)) and \
+            any(len(d) > 3 and d[3] != "none" for d in case["cmds"] if d[0] == "doc")
     ans = {o for c, o in zip(case["cmds"], outs) if c[0].startswith("apply")}
     return any(has_bool(c) for c in case["cmds"] if c[0].startswith("apply")) and len(ans) >= 2 and \
         any(o.startswith("{") and o != "{}" for o in ans)
@@ -293,6 +375,8 @@ def features(case, outs):
         if c[0] == "doc":
             continue
         f.append("cmd:" + c[0])
+        if c[0] == "xapply":
+            continue
         f.append("answer:" + ("empty" if o == "{}" else "nonempty" if o.startswith("{") else o if o.startswith("err") else "shape"))
         for t in ("and", "or", "not"):
             if t in c[1:]:
@@ -326,14 +410,17 @@ def arity_class(n):
 
 
 def size_features(case, outs):
-    """arity classes of the executed trees; for two-level And/Or over leaves answered in this case: the largest
-    size ratio between the running result and the next operand (measured on the implementation's answers is not
-    possible without re-running, so it is measured on the leaves' model-free estimate: not done here) -
-    the ratio is measured by `ratio_probe` in the docstring's experiment instead"""
+    """arity classes of the executed trees (after flattening); on large catalogs the size observations of
+    `probe` (how far apart the running result and the next operand are)"""
     f = []
-    for c, o in zip(case["cmds"], outs):
-        if c[0].startswith("apply"):
+    for j, (c, o) in enumerate(zip(case["cmds"], outs)):
+        if c[0] == "xapply":
+            t = qtree.parse_tokens(list(c[1:]))
+            f.append("xapply:" + ("agree" if o == "ok" else "differ"))
+            f += ["xapply-const:" + x for x in qtree.xfeatures(t)]
+        elif c[0].startswith("apply"):
             f.append("arity:" + arity_class(max_arity(qtree.parse_tokens(list(c[1:])))))
+            f += ["large:" + x for x in _PROBE.get(j, [])]
     return f
 
 
